@@ -48,7 +48,7 @@ def main():
                     used.add(k)
         used |= set(EXTRA_USED.get(pid, []))
         rot = ORDER[i % len(ORDER):] + ORDER[:i % len(ORDER)]
-        kind = next((k for k in rot if k not in used), rot[0])
+        kind = next((k for k in rot if k not in used), rot[ord(rnd[0]) % len(rot)])
         earlier = []
         for d in sorted((V / "seeded").glob(f"{pid}-*")):
             try:
